@@ -420,8 +420,6 @@ common::register! {
     q_tfb_nack_0 = fb_nack::<_, true, 0> => 2,
     q_tfb_nack_1 = fb_nack::<_, true, 1> => 2,
     q_pfb_nack_1 = fb_nack::<_, false, 1> => 2,
-    t_tfb_nack_fixed = fb_nack_fixed::<_, false> => 5,
-    t_tfb_nack_fixed_owned = fb_nack_fixed::<_, true> => 5,
     t_tfb_nack_2 = fb_nack::<_, true, 2> => 3,
     q_wrapped_bye = wrapped::<_, 0> => 2,
     q_wrapped_app = wrapped::<_, 1> => 2,
@@ -453,7 +451,6 @@ common::register! {
 common::register_hashmap! {
     q_pfb_fir_1 = fb_fir::<_, false, false> => 3,
     q_tfb_fir_1 = fb_fir::<_, true, false> => 3,
-    t_pfb_fir_fixed = fb_fir::<_, false, true> => 6,
 }
 
 #[cfg(not(kani))]
